@@ -222,7 +222,7 @@ theorem laws : ParserLaws model where
         have := ((wholeOk_iff s.seen).mp (parse_some hp).1).2.1
         rw [hcb, this, hseen]; simp
   chunk_independent := by
-    intro rx cb t h
+    intro rx cb t _ h
     simp only [ParserModel.stream] at h
     cases hr : model.runRev rx with
     | none => simp [hr] at h
